@@ -568,6 +568,9 @@ def _site_pc_ev(tr, ev):
     if ev.func.is_setter:
         cs = [e for e in tr.events[: ev.seq] if e.kind == "call" and e.callee[0] == "setter"]
         if cs:
+            if ev.d.get("phi_conds"):
+                from ..evalr import virtual
+                return virtual(cs[-1], ev.phi_conds)
             return cs[-1]
     return ev
 
